@@ -18,7 +18,13 @@ dump, for the lock order) over a page cache of size = #threads and #threads-1.  
 * the locks are acquired in an order that is acyclic over all threads (LockOrder.acyclicb);
 * a refused read (BUSY) only happens while at least `cap` references are outstanding, and never
   when the cache has as many slots as there are threads;
-* bytes and statuses equal the answers of a fresh single-threaded context;
+* bytes and statuses equal the answers of a fresh single-threaded context; fill failures are
+  injected (the format handlers' fcache_pread / fcache_get_chunk fail at random, ld --wrap) while the threads read a small hot set
+  of pages, so that a fill fails while other threads are attached to the same in-flight entry
+  (compressed diskdumps, and ELF cores whose pages straddle several LOAD segments);
+* after quiescence the main thread re-reads every page: no read may be refused as BUSY (nothing
+  is in flight) and every page must read as in the reference run (wrong data that PERSISTS is a
+  violation of its own, distinct from the listed transient finding C05-shared-inflight);
 * sum of reference counts of the page cache and both file caches is 0 at quiescence;
 * "stress": the model's lost-update schedule (C05_safe_all_schedules_refuted) searched on the
   real library: two threads repeat a cache hit + put of one page; the reference count must
@@ -93,7 +99,7 @@ def acyclic(edges):
     return all(visit(n) for n in nodes)
 
 
-def judge(run, case, line, model_verdict):
+def judge(run, case, line, model_verdict, fmt="?"):
     """Returns (kind, what, signature) or None."""
     if line.startswith("CRASH") or line == "NOT-RUN":
         return ("impl", "library crashes or hangs (%s) with threads on clones" % line,
@@ -102,11 +108,18 @@ def judge(run, case, line, model_verdict):
     if p is None:
         return ("tie", "driver output not understood: " + line[:80], "conc tie output")
     t = p["tail"]
+    if t.get("persist", "0") != "0":
+        return ("spec", "wrong bytes/status that PERSIST after all threads finished (%s pages re-read by the main "
+                "thread differ from the reference: %s)" % (t["persist"], t.get("bad", "")),
+                "conc wrong-bytes persistent fmt=" + fmt)
+    if t.get("postbusy", "0") != "0":
+        return ("spec", "%s reads refused as BUSY after all threads finished (nothing is in flight)" % t["postbusy"],
+                "conc busy-at-quiescence")
     if not t.get("bad", "0").startswith("0"):
         j = t.get("joined", "0") != "0"
         return ("spec", "%s reads returned wrong bytes/status while other threads were reading%s"
                 % (t["bad"], " (threads shared an in-flight cache entry in this run)" if j else ""),
-                "conc wrong-bytes" + (" joined-inflight" if j else ""))
+                "conc wrong-bytes" + (" joined-inflight" if j else "") + " transient fmt=" + fmt)
     if not t.get("nolock", "0").startswith("0"):
         return ("spec", "cache entry point called without cache_lock (%s)" % t["nolock"],
                 "conc cache-op-without-lock " + t["nolock"].split(":")[-1])
@@ -182,7 +195,8 @@ def check(run):
     quick = run.tier == "quick"
     work = os.path.join(run.work, "dumps")
     os.makedirs(work, exist_ok=True)
-    exe = run.need_cc("conc_drv", "conc_drv.c", sources=core.lib_sources(), sanitize=True)
+    exe = run.need_cc("conc_drv", "conc_drv.c", sources=core.lib_sources(), sanitize=True,
+                      flags=("-Wl,--wrap=_kdumpfile_priv_fcache_pread", "-Wl,--wrap=_kdumpfile_priv_fcache_get_chunk"))
     if exe is None:
         return
     if run.replay_path:
@@ -201,6 +215,25 @@ def check(run):
                         flags = run.rng.choice([1, 3, 5, 19, 11, 27])
                         cases.append(("R %s %d %d %d %d %d" % (d["files"][0], n, cap, 50 if quick else 200,
                                                                run.rng.randrange(1 << 16), flags), d))
+        # fill failures (fcache_pread / fcache_get_chunk of the format handlers fail at random) on a hot set of pages, so that a fill fails
+        # while other threads are attached to the same in-flight entry; compressed diskdumps and ELF
+        # cores whose pages straddle several LOAD segments
+        for d in dumps:
+            for n in (3, 6):
+                cases.append(("R %s %d %d %d %d 33" % (d["files"][0], n, n, 60 if quick else 250,
+                                                       run.rng.randrange(1 << 16)), d))
+        for k in range(4 if quick else 12):
+            seed = run.rng.randrange(1 << 48)
+            d = histgen.gen_elf(random.Random(seed), work, "e%d" % k, straddle=True)
+            d["seed"] = seed
+            # the pages that straddle LOAD segments (only these go through the page cache); attribute
+            # writers (flag 8) re-allocate the page cache now and then, so the pages miss again and again
+            hot = sorted({x // 4096 for (pp, vv, fs, ms) in d["segs"] for x in (pp, pp + ms - 1, pp + fs - 1)
+                          if x // 4096 < 256 and (pp % 4096 or (pp + ms) % 4096)})[:8]
+            for n in (4, 8):
+                cases.append(("R %s %d %d %d %d 41 hot=%s" % (d["files"][0], n, n, 300 if quick else 1000,
+                                                              run.rng.randrange(1 << 16),
+                                                              ",".join("%x" % h for h in hot)), d))
         # LKCD: reads and max_pfn queries from all threads (lock order cache_lock / pfn_block_mutex)
         for k in range(2 if quick else 10):
             seed = run.rng.randrange(1 << 48)
@@ -249,7 +282,7 @@ def check(run):
                 run.sample({"case": l, "thread0_events": p["threads"][0][:160] + " ...", "summary": o.split(" | ")[-1]})
         else:
             run.note_case(l, True)
-        j = judge(run, l, o, verdicts[i])
+        j = judge(run, l, o, verdicts[i], fmt=(cases[i][1].get("fmt", "?") if cases and isinstance(cases[i], tuple) else "?"))
         if j:
             kind, what, sig = j
             d = cases[i][1] if cases and isinstance(cases[i], tuple) else {}
@@ -270,7 +303,8 @@ def check(run):
 def tsan_stage(run, lines):
     for cc in ("gcc", "clang"):
         exe = run.need_cc("conc_tsan_" + cc, "conc_drv.c", sources=core.lib_sources(), sanitize=False,
-                          flags=("-fsanitize=thread",), cc=cc)
+                          flags=("-fsanitize=thread", "-Wl,--wrap=_kdumpfile_priv_fcache_pread",
+                                 "-Wl,--wrap=_kdumpfile_priv_fcache_get_chunk"), cc=cc)
         if exe is None:
             continue
         sel = [l for l in lines if l.startswith("R")][::5][:12]
